@@ -260,6 +260,35 @@ def run(prog, check):
              'the move happens only when the per-variable "found" flag (reset for each variable) is false' if flag_ok else
              'a referenced variable can be moved (flag missing, not reset per variable, or polarity inverted)',
              'x referenced by y: x must stay in the simultaneous block')
+    # ---- R1b: reduction never rewrites the lagged / exogenous partitions ----------------------------------
+    for f in P.methods.values():
+        if f.name in ('__init__',):
+            continue
+        for n in ast.walk(f.node):
+            tg = None
+            if isinstance(n, ast.Assign):
+                tg = n.targets[0]
+            elif isinstance(n, ast.AugAssign):
+                tg = n.target
+            if isinstance(tg, ast.Attribute) and isinstance(tg.value, ast.Name) and tg.value.id == 'self' and tg.attr in ('Lagged', 'Exogenous', 'Decoration'):
+                reset = isinstance(n, ast.Assign) and isinstance(n.value, (ast.List, ast.Dict)) and not getattr(n.value, 'elts', getattr(n.value, 'keys', []))
+                if reset and f.name != deco_pass.name and f.name != alias_pass.name and f.name != rebuild.name:
+                    continue
+                check.ob('C03.R1', '%s::rewrites-partition(%s)' % (f.key, tg.attr), False, '%s:%d' % (f.module.rel, n.lineno),
+                         'the %s partition is re-assigned outside the parse-time reset: reduction may only move equations from '
+                         'Endogenous to Decoration and substitute text in endogenous equations' % tg.attr,
+                         'a lag of an aliased variable that carries its own initial condition')
+    # ---- R5: decorative variables enter the evaluation environment only with their freshly evaluated value ----
+    from ..solver_model import decoration_env_stores
+    stores = decoration_env_stores(sw)
+    for a, ok, why in stores:
+        check.ob('C03.R5', '%s::decoration-env-store(%s)' % (sw.f.key, unparse(a.value)[:60]), ok, '%s:%d' % (sw.f.module.rel, a.lineno),
+                 'a decorative variable becomes visible to other decorative equations only once it has been evaluated this period' if ok else
+                 why + ': a decorative equation referring to another decorative variable silently uses its value of the previous period '
+                 '(the NameError that orders the evaluation never fires)', 'a chain of decorative variables w = y, y = z listed in dependency-reversed order')
+    check.ob('C03.R5', '%s::decoration-env-stores-present' % sw.f.key, bool(stores), sw.f.where,
+             '%d store(s) of decorative values into the evaluation environment examined' % len(stores), '')
+    check.floor('C03.R5', 2)
     check.floor('C03.R1', 5)
     check.floor('C03.R2', 8)
     check.floor('C03.R3', 4)
